@@ -11,8 +11,8 @@ def setup_worker():
 
 def run_case_for(tag, case, reuse=12):
     spec = case["spec"]
-    sample = {"spec": spec, "turns": case["turns"], "kinds": case["kinds"], "verdicts": case["V"], "fault": case.get("fault"), "options_per_turn": case.get("opts")}
-    base = {"key": repr((sorted(spec.items()), case["turns"], case["kinds"], case["V"], case.get("fault"), case.get("opts"))), "sample": sample, "ver": spec["ver"], "mode": spec["mode"]}
+    sample = {"spec": spec, "turns": case["turns"], "kinds": case["kinds"], "verdicts": case["V"], "fault": case.get("fault"), "options_per_turn": case.get("opts"), "api": case.get("api", "messages")}
+    base = {"key": repr((sorted(spec.items()), case["turns"], case["kinds"], case["V"], case.get("fault"), case.get("opts"), case.get("api"))), "sample": sample, "ver": spec["ver"], "mode": spec["mode"]}
     try:
         records, app = rc.run_conversation(case, reuse=reuse)
     except Exception as e:
@@ -26,6 +26,7 @@ def run_case_for(tag, case, reuse=12):
     obs["mode_" + spec["mode"]] = 1
     obs["conversations"] = 1
     obs["conversations_with_per_call_options"] = int(bool(case.get("opts")))
+    obs["conversations_via_state_api"] = int(case.get("api") == "state")
     sample["replies"] = [r["reply"] if r["raised"] is None else "RAISED %r" % (r["raised"],) for r in records]
     monitor_reached = stats["turns_judged"] + stats["faulted_turns"] > 0 and (stats["rail_calls_in"] + stats["rail_calls_out"] > 0)
     res = dict(base, observed=obs)
